@@ -334,6 +334,10 @@ func (p *cparser) postfix() *CE {
 				e = &CE{Kind: "field", Name: t.n.String(), Args: []*CE{e}}
 				continue
 			}
+			if t.k == "op" && t.s == "*" { // p.* in modifies clauses
+				e = &CE{Kind: "field", Name: "*", Args: []*CE{e}}
+				continue
+			}
 			if t.k != "id" {
 				p.fail("expected field name at %d", t.pos)
 			}
